@@ -148,7 +148,7 @@ ALIAS_ITEMS = [("A->B", "->"), ("A + B", "+"), ("a|b", "|"), ("c&d", "&"), ("A<-
 
 def L_receipts_point_at_their_text(pi: int, ai: int, nl: int, indent: int, lead: int) -> int:
     """
-    pre: 0 <= pi <= 10 and 0 <= ai <= 7 and 1 <= nl <= 2 and 0 <= indent <= 1 and 0 <= lead <= 1
+    pre: 0 <= pi <= 10 and 0 <= ai <= 7 and 1 <= nl <= 2 and 0 <= indent <= 3 and 0 <= lead <= 2
     post: _ != 0
     """
     # a rewrite site that FOLLOWS another token on the same line (incl. tokens that span lines: multi-line triple-quoted
@@ -159,7 +159,9 @@ def L_receipts_point_at_their_text(pi: int, ai: int, nl: int, indent: int, lead:
     from octave_mcp.core import lexer as lx
     from octave_mcp.core.parser import parse_with_warnings
 
-    pi, ai, nl, indent, lead = realize(pi), realize(ai), realize(nl), realize(indent), realize(lead)
+    from vf.ob import pick
+
+    pi, ai, nl, indent, lead = pick(pi, 11), pick(ai, 8), pick(nl, 2, 1), pick(indent, 4), pick(lead, 3)
     with NoTracing():
         prefix = PREFIXES[pi].replace("NL", "\n" * max(nl, 1))
         item, alias = ALIAS_ITEMS[ai]
@@ -318,7 +320,7 @@ def obligations(tier):
     obs = [
         xh_ob(PROP, "P.multi-word-coalesce-receipts", P_coalesce, timeout=900, bound="K:: followed by 1-3 value tokens of kinds chosen by the solver from IDENTIFIER/NUMBER/STRING/BOOLEAN/NULL/VERSION; line and column any positive integers", functions=["parser.Parser.parse_value (all coalescing sites)", "_token_to_str"]),
         xh_ob(PROP, "P.recovery-receipts", P_recovery, timeout=600, bound="bare identifier line, unclosed list at EOF, key repeated 2-3 times; line and column symbolic in 1..30", functions=["parser.Parser.parse_section (bare_line_dropped)", "parse_list (unclosed_list)", "_emit_duplicate_key_warning"]),
-        xh_ob(PROP, "L.receipts-point-at-their-text-after-any-token", L_receipts_point_at_their_text, timeout=900, bound="list line K::[<prefix>, <item>]: 11 prefix tokens (string, identifier, number, variable, boolean, list, triple-quoted strings spanning 1-2 line breaks, list broken over lines, alias expression, quoted alias text) x 8 items (7 alias spellings, one multi-word value) x indent 0/1 x 0-1 leading blank lines", functions=["lexer.tokenize (position tracking)", "parser.parse_with_warnings"]),
+        xh_ob(PROP, "L.receipts-point-at-their-text-after-any-token", L_receipts_point_at_their_text, timeout=900, bound="list line K::[<prefix>, <item>]: 11 prefix tokens (string, identifier, number, variable, boolean, list, triple-quoted strings spanning 1-2 line breaks, list broken over lines, alias expression, quoted alias text) x 8 items (7 alias spellings, one multi-word value) x indent 0-3 x 0-2 leading blank lines", functions=["lexer.tokenize (position tracking)", "parser.parse_with_warnings"]),
         xh_ob(PROP, "L.lexer-alias-receipts", L_lexer_receipts, timeout=600, bound=f"{len(LINES)} lenient / canonical lines (every alias of the table, triple quotes, aliases inside quotes and comments, two occurrences) x 0-2 leading newlines x indentation 0-4, chosen by the solver; real tokenizer", functions=["lexer.tokenize (normalization records)"]),
         xh_ob(PROP, "C.canonical-models-have-no-rewrite-receipts", C_models_have_no_receipts, timeout=300, bound="canonical text of both content models through parse_with_warnings", functions=["parser.parse_with_warnings"]),
         xh_ob(PROP, "M.tools-map-each-receipt-once", M_mapping, timeout=1500, bound="0-3 receipts of kinds chosen by the solver (normalization, multi_word_coalesce, duplicate_key, spec_violation, repair_candidate) with symbolic line/column; octave_validate.repairs, octave_write._map_parse_warnings_to_corrections, _track_corrections", functions=["mcp.validate.ValidateTool.execute (STAGE 1)", "mcp.write.WriteTool._map_parse_warnings_to_corrections", "_track_corrections"]),
